@@ -31,7 +31,7 @@ def esc(b):
     return s
 viol = 0
 crashes = sorted(glob.glob(os.path.join(art, '*')))
-binp = os.path.join(V, 'harness', 'target', 'release', pid.lower())
+binp = os.path.join(V, 'harness', 'target', os.environ.get('ICYV_PROFILE', 'release'), pid.lower())
 C02_EXTS = ["ans", "icy", "idf", "bin", "xb", "tnd", "pcb", "avt", "asc", "adf", "msg", "an1", "seq", "ata", "diz", "ice", "xyz", "an9"]
 C02_TARGET = {"ans": 0, "ice": 1, "diz": 2, "icy": 3, "idf": 4, "bin": 5, "xb": 6, "tnd": 7, "pcb": 8, "avt": 9, "asc": 10, "adf": 11, "msg": 12, "an1": 13, "an9": 21, "seq": 22, "ata": 23, "xyz": 24}
 C02_API = [(32, "sauce"), (33, "bitfont"), (34, "tdf"), (36, "palette"), (37, "palette"), (38, "palette"), (35, "palette"), (39, "palette")]
